@@ -168,6 +168,51 @@ def drive(ctx, value, lo, hi, tol, other=None):
                                     "exception": repr(exc)})
 
 
+def history(ctx, rng):
+    """State must not leak between calls: one bounds object is re-used and changed IN PLACE between
+    calls, and consecutive calls differ in exactly one argument (value, one bound, or tolerance)."""
+    from plotink import plot_utils
+    kind = rng.choice(("int", "dyadic"))
+    scale = rng.choice((4, 100, 10 ** 4))
+    lo, hi = sorted((gen_number(rng, kind, scale), gen_number(rng, kind, scale)))
+    olo, ohi = sorted((gen_number(rng, kind, scale), gen_number(rng, kind, scale)))
+    tol = abs(gen_number(rng, kind, max(1, scale // 50)))
+    bounds = [[lo, olo], [hi, ohi]]              # the SAME list objects throughout this history
+    point = [gen_number(rng, kind, scale * 2), gen_number(rng, kind, scale * 2)]
+    for step in range(rng.randint(3, 8)):
+        c = rng.randrange(5)
+        if c == 0:
+            point[rng.randrange(2)] = gen_number(rng, kind, scale * 2)
+        elif c == 1:                              # widen / shrink one limit in place
+            axis = rng.randrange(2)
+            if rng.random() < 0.5:
+                bounds[1][axis] = max(bounds[0][axis], gen_number(rng, kind, scale * 2))
+            else:
+                bounds[0][axis] = min(bounds[1][axis], gen_number(rng, kind, scale * 2))
+        elif c == 2:
+            tol = abs(gen_number(rng, kind, max(1, scale // 50)))
+        elif c == 3:                              # a point exactly on the (new) tolerance edge
+            axis = rng.randrange(2)
+            point[axis] = rng.choice((bounds[1][axis] + tol, bounds[0][axis] - tol, bounds[1][axis], bounds[0][axis]))
+        try:
+            inb = plot_utils.point_in_bounds(point, bounds, tol)
+            _, fx = plot_utils.checkLimitsTol(point[0], bounds[0][0], bounds[1][0], tol)
+            _, fy = plot_utils.checkLimitsTol(point[1], bounds[0][1], bounds[1][1], tol)
+            plot_utils.checkLimits(point[0], bounds[0][0], bounds[1][0])
+            plot_utils.constrainLimits(point[1], bounds[0][1], bounds[1][1])
+        except Exception as exc:
+            ctx.violation("exception", {"fn": "history", "args": [list(point), [list(b) for b in bounds], tol],
+                                        "exception": repr(exc)})
+            return
+        ctx.case(["history: bounds object re-used and changed in place", "history step %d" % min(step, 3)],
+                 ("h", tuple(point), tuple(bounds[0]), tuple(bounds[1]), tol, step))
+        ctx.count("monitor:point_in_bounds == per-axis checkLimitsTol (real vs real)")
+        if inb is not (not (fx or fy)):
+            ctx.violation("point_in_bounds disagrees with checkLimitsTol", {
+                "fn": "history", "args": [list(point), [list(b) for b in bounds], tol], "step": step,
+                "point_in_bounds": inb, "flags": [fx, fy]})
+
+
 def position_class(value, lo, hi, tol):
     v, l, h, t = F(value), F(lo), F(hi), F(tol)
     out = []
@@ -272,10 +317,12 @@ def run(ctx):
                    tag=cls[0])
         drive(ctx, value, lo, hi, tol, other)
         done += 1
+        if done % 4 == 0:
+            history(ctx, rng)
     for cls in ("below lower-tol", "exactly lower-tol", "within tol below lower", "exactly lower",
                 "strictly inside", "exactly upper", "within tol above upper", "exactly upper+tol",
                 "above upper+tol", "lower==upper", "tol=0", "numbers:int", "numbers:dyadic",
-                "numbers:float"):
+                "numbers:float", "history: bounds object re-used and changed in place"):
         ctx.need(cls, 200)
     for mon in ("monitor:checkLimits evaluated", "monitor:constrainLimits evaluated",
                 "monitor:checkLimitsTol evaluated", "monitor:point_in_bounds evaluated"):
